@@ -24,7 +24,7 @@ Prog(fmt, n, nst) ==
                  [k |-> "method", name |-> 0, arity |-> 0, locals |-> 0, code |-> Flat([i \in 1..n |-> IF nst /\ i = 1 THEN NastyArg ELSE ArgCode[i]]) \o <<Ins(OP_PRINT, 1, n)>>],
                  [k |-> "str", bytes |-> <<97, 92, 110, 126, 34, 98>>], [k |-> "slot", name |-> 7], [k |-> "class", members |-> <<8>>] >>,
    globals |-> <<>>, entry |-> 6]
-Init == f \in Strings /\ nargs \in 0..3 /\ nasty \in BOOLEAN /\ (nasty => nargs >= 1)
+Init == f \in Strings /\ nargs \in 0..3 /\ nasty \in BOOLEAN /\ (nasty => nargs >= 1 /\ Len(f) <= 3)     \* (the nasty variant for formats of up to 3 symbols, in both tiers)
 Next == FALSE /\ UNCHANGED <<f, nargs, nasty>>
 Report == LET fmt == Flat(f) IN
           ~NoDanglingBackslash(fmt) \/
